@@ -117,7 +117,8 @@ def build(exprs, positions, placement, remove=False):
         elif pos == "transform":
             if not remove:
                 pre.append(f"field.description = {x}")
-            pre.append('field.description = regex_replace(field.description, " 9$", " NINE")')
+            # a later, evaluable transform that decides classification: "MISC ..." rows become NETFLIX rows
+            pre.append('field.description = regex_replace(field.description, "^MISC", "NETFLIX")')
         elif pos == "variable":
             if not remove:
                 pre.append(f"v{n} = {x}")
